@@ -279,8 +279,12 @@ pub fn remove_unit(is_row: bool, c: usize, r: usize) {
 
 /// The same removal on an array whose buffer is far larger than its contents (capacity 64).
 pub fn remove_tok_bigcap(mode: u8, c: usize, r: usize) {
+    remove_tok_cap(mode, c, r, 64);
+}
+
+pub fn remove_tok_cap(mode: u8, c: usize, r: usize, cap: usize) {
     unsafe {
-        CAP_OVERRIDE = 64;
+        CAP_OVERRIDE = cap;
     }
     remove_tok(mode, c, r, false, false, 0);
 }
